@@ -15,113 +15,6 @@ import JaqVerif.C13.Codec
 
 namespace Jaq.C13
 
-/-! ## POSIX shell words -/
-
-/-- bytes that are ordinary inside an unquoted word for every POSIX shell, at any position:
-letters, digits and `% + , - . / : @ ^ _` (no operator, expansion, quote, glob, comment, `~`, `=`) -/
-def isPlain (b : UInt8) : Bool :=
-  (48 ≤ b.toNat && b.toNat ≤ 57) || (65 ≤ b.toNat && b.toNat ≤ 90) || (97 ≤ b.toNat && b.toNat ≤ 122) ||
-  b == 37 || b == 43 || b == 44 || b == 45 || b == 46 || b == 47 || b == 58 || b == 64 || b == 94 || b == 95
-
-/-- inside single quotes: everything up to the next `'` is literal -/
-def shQuoted : Bytes → Option (Bytes × Bytes)
-  | [] => none                                   -- unterminated quote
-  | b :: r =>
-    if b = 39 then some ([], r)
-    else match shQuoted r with
-      | some (q, r') => some (b :: q, r')
-      | none => none
-
-/-- lexer state outside quotes: `cur = some w` while a word is being built.
-Fuel: input length + 1. -/
-def shLex : Nat → Option Bytes → Bytes → Option (List Bytes)
-  | 0, _, _ => none
-  | _, cur, [] => some (match cur with | some w => [w] | none => [])
-  | n + 1, cur, b :: r =>
-    if b = 32 ∨ b = 9 then                         -- blank: ends the current word
-      match shLex n none r with
-      | some ws => some (match cur with | some w => w :: ws | none => ws)
-      | none => none
-    else if b = 39 then                            -- single quote
-      match shQuoted r with
-      | some (q, r') => if r'.length ≤ r.length then shLex n (some (cur.getD [] ++ q)) (r'.take r.length) else none
-      | none => none
-    else if b = 92 then                            -- backslash: next byte literal (not newline)
-      match r with
-      | c :: r' => if c = 10 then none else shLex n (some (cur.getD [] ++ [c])) r'
-      | [] => none
-    else if isPlain b then shLex n (some (cur.getD [] ++ [b])) r
-    else none
-
-/-- the words (`argv`) of a simple command line; `none` = contains something a shell interprets -/
-def shWords (s : Bytes) : Option (List Bytes) := shLex (s.length + 1) none s
-
-/-! ## RFC 4180 -/
-
-/-- a field as a CSV reader sees it: was it quoted, and its content -/
-structure CsvField where
-  quoted : Bool
-  text : Bytes
-  deriving Repr, DecidableEq
-
-/-- rest of a quoted field after the opening quote: content and the input after the closing quote -/
-def csvQuotedRest : Bytes → Option (Bytes × Bytes)
-  | [] => none
-  | b :: r =>
-    if b = 34 then
-      match r with
-      | c :: r' =>
-        if c = 34 then
-          match csvQuotedRest r' with
-          | some (q, rest) => some (34 :: q, rest)
-          | none => none
-        else some ([], c :: r')
-      | [] => some ([], [])
-    else
-      match csvQuotedRest r with
-      | some (q, rest) => some (b :: q, rest)
-      | none => none
-
-/-- an unquoted field: up to `,`, LF, CRLF or the end; a quote inside is an error -/
-def csvPlain : Bytes → Option (Bytes × Bytes)
-  | [] => some ([], [])
-  | b :: r =>
-    if b = 44 ∨ b = 10 then some ([], b :: r)
-    else if b = 13 ∧ r.head? = some 10 then some ([], b :: r)
-    else if b = 34 then none
-    else match csvPlain r with
-      | some (f, rest) => some (b :: f, rest)
-      | none => none
-
-/-- records of a CSV text (fuel: input length + 1).  `recs` accumulates finished records in
-reverse, `cur` the fields of the current record in reverse. -/
-def csvReadF : Nat → List CsvField → Bytes → Option (List (List CsvField))
-  | 0, _, _ => none
-  | n + 1, cur, s =>
-    let fld : Option (CsvField × Bytes) :=
-      match s with
-      | b :: r =>
-        if b = 34 then (csvQuotedRest r).map fun (q, rest) => (⟨true, q⟩, rest)
-        else (csvPlain s).map fun (f, rest) => (⟨false, f⟩, rest)
-      | [] => some (⟨false, []⟩, [])
-    match fld with
-    | none => none
-    | some (f, rest) =>
-      if rest.length > s.length then none else
-      match rest with
-      | [] => some [(f :: cur).reverse]
-      | b :: r =>
-        if b = 44 then csvReadF n (f :: cur) r
-        else if b = 10 then
-          if r.isEmpty then some [(f :: cur).reverse]
-          else (csvReadF n [] r).map fun recs => (f :: cur).reverse :: recs
-        else if b = 13 ∧ r.head? = some 10 then
-          if (r.drop 1).isEmpty then some [(f :: cur).reverse]
-          else (csvReadF n [] (r.drop 1)).map fun recs => (f :: cur).reverse :: recs
-        else none                                     -- garbage after a closing quote
-
-def csvRead (s : Bytes) : Option (List (List CsvField)) := csvReadF (s.length + 1) [] s
-
 /-! ## TSV -/
 
 def tsvUnescStep : Bytes → Bytes × Nat
